@@ -15,6 +15,9 @@ CONSTANTS
     JunkOn,       \* BOOLEAN: junk lines
     Rich,         \* BOOLEAN: text pools with boundary lengths (simulation) instead of one text per field
     PwOn,         \* BOOLEAN: password lines
+    RichSel,      \* subset of {"data", "reply", "modes", "shapes"}: which pools are rich although Rich = FALSE
+    Script,       \* <<>> (free environment) or a sequence of sets of event kinds: step k may only take an event whose
+                  \* kind is in Script[k] (straight-line histories that enumerate the rich text pools exhaustively)
     EmitMod       \* print every EmitMod-th behaviour (1 = all, 0 = none)
 
 VARIABLES
@@ -22,7 +25,9 @@ VARIABLES
     cviol,        \* conjuncts violated by the last step
     inst,         \* announcements so far, per id
     npw,          \* password lines in the current instance, per id
-    oldtags,      \* routing tags of earlier instances, per id
+    oldtags,      \* earlier instances, per id: <<routing tag, services that still owed it an answer when it ended>>
+                  \* (the second component makes "a late reply genuinely meant for a departed instance" a state of its own,
+                  \* so that the per-transition behaviours contain such histories and not only their shortest stand-ins)
     hist          \* history ghost: sequence of [e |-> event, o |-> output, n |-> in use]
 
 A == INSTANCE IAuthContract
@@ -42,20 +47,21 @@ MCInit == /\ Init
 SvcNameSet == {Services[n].name : n \in 1..Len(Services)}
 
 \* texts: <<ref, full length>>; the rich pools straddle the documented limits
-NickPool  == IF Rich THEN {<<"n1", 5>>, <<"nb", 30>>, <<"nc", 31>>, <<"nd", 45>>} ELSE {<<"n1", 5>>}
-HostPool  == IF Rich THEN {<<"h1", 12>>, <<"hb", 63>>, <<"hc", 64>>, <<"hd", 80>>} ELSE {<<"h1", 12>>}
-IdentPool == IF Rich THEN {<<"i1", 4>>, <<"ib", 10>>, <<"ic", 11>>, <<"id", 15>>} ELSE {<<"i1", 4>>}
+RichP(k) == Rich \/ k \in RichSel
+NickPool  == IF RichP("data") THEN {<<"n1", 5>>, <<"nb", 30>>, <<"nc", 31>>, <<"nd", 45>>} ELSE {<<"n1", 5>>}
+HostPool  == IF RichP("data") THEN {<<"h1", 12>>, <<"hb", 63>>, <<"hc", 64>>, <<"hd", 80>>} ELSE {<<"h1", 12>>}
+IdentPool == IF RichP("data") THEN {<<"i1", 4>>, <<"ib", 10>>, <<"ic", 11>>, <<"id", 15>>} ELSE {<<"i1", 4>>}
 \* <<text, starts with ~>>
-UserPool  == IF Rich THEN {<< <<"c1", 6>>, 0>>, << <<"cb", 9>>, 0>>, << <<"cc", 10>>, 0>>, << <<"cd", 13>>, 0>>,
+UserPool  == IF RichP("data") THEN {<< <<"c1", 6>>, 0>>, << <<"cb", 9>>, 0>>, << <<"cc", 10>>, 0>>, << <<"cd", 13>>, 0>>,
                            << <<"~e", 8>>, 1>>, << <<"~f", 10>>, 1>>, << <<"~g", 12>>, 1>>}
              ELSE {<< <<"c1", 6>>, 0>>}
-RealPool  == IF Rich THEN {<<"r1", 11>>, <<"spb", 50>>, <<"spc", 51>>, <<"spd", 70>>} ELSE {<<"r1", 11>>}
-CredPool  == IF Rich THEN {<<"p1", 10>>, <<"pb", 511>>, <<"pc", 512>>, <<"pd", 600>>} ELSE {<<"p1", 10>>}
-AcctPool  == IF Rich THEN {<<"ac1", 8>>, <<"acb", 64>>, <<"acc", 65>>, <<"acd", 90>>} ELSE {<<"ac1", 8>>}
-TextPool  == IF Rich THEN {<<"t1", 9>>, <<"spt", 60>>, <<"spu", 200>>} ELSE {<<"t1", 9>>}
-TrailPool == IF Rich THEN {"", " tr ailing :words"} ELSE {""}
+RealPool  == IF RichP("data") THEN {<<"r1", 11>>, <<"spb", 50>>, <<"spc", 51>>, <<"spd", 70>>} ELSE {<<"r1", 11>>}
+CredPool  == IF RichP("data") THEN {<<"p1", 10>>, <<"pb", 511>>, <<"pc", 512>>, <<"pd", 600>>} ELSE {<<"p1", 10>>}
+AcctPool  == IF RichP("reply") THEN {<<"ac1", 8>>, <<"acb", 64>>, <<"acc", 65>>, <<"acd", 90>>} ELSE {<<"ac1", 8>>}
+TextPool  == IF RichP("reply") THEN {<<"t1", 9>>, <<"spt", 60>>, <<"spu", 200>>} ELSE {<<"t1", 9>>}
+TrailPool == IF RichP("reply") THEN {"", " tr ailing :words"} ELSE {""}
 
-ModeChoices == IF Rich THEN { <<"+", "x">>, <<"+", "!">>, <<"-", "!">>, <<"+", "x", "!">>, <<"-", "x", "+", "!">>, <<"+", "!", "-", "!">>, <<"+">> }
+ModeChoices == IF RichP("modes") THEN { <<"+", "x">>, <<"+", "!">>, <<"-", "!">>, <<"+", "x", "!">>, <<"-", "x", "+", "!">>, <<"+", "!", "-", "!">>, <<"+">> }
                ELSE { <<"+", "x">>, <<"+", "!">>, <<"-", "!">> }
 RECURSIVE ModeName(_)
 ModeName(m) == IF m = <<>> THEN "" ELSE m[1] \o ModeName(Tail(m))
@@ -72,7 +78,7 @@ PasswordEvents(i) ==
     ELSE { [e |-> "P", id |-> i, shape |-> "ok", modes |-> m, cred |-> c, raw |-> <<"P" \o ModeName(m) \o c[1], 0>>]
              : m \in ModeChoices, c \in CredPool }
          \cup { [e |-> "P", id |-> i, shape |-> sh, modes |-> <<>>, cred |-> c, raw |-> <<"P" \o sh \o c[1], 0>>]
-             : sh \in (IF Rich THEN {"nomode", "nosp", "nosep"} ELSE {"nomode"}), c \in CredPool }
+             : sh \in (IF RichP("shapes") THEN {"nomode", "nosp", "nosep"} ELSE {"nomode"}), c \in CredPool }
 
 ReplyKinds == {"OK", "OKA", "OKE", "NO", "AGAIN", "MORE", "UNL", "JUNK"}
 \* oid: the client the environment means the reply for; st = 1 marks lines the daemon must ignore entirely
@@ -93,7 +99,7 @@ StrayReplies(i) ==
     IF StrayLevel = 0 THEN {}
     ELSE LET cur == IF Live(i) THEN {Routing(i, req[i].serial)} ELSE {}
              notAwaited == IF Live(i) THEN (SvcNameSet \cup {"zz.unknown"}) \ {slots[s].name : s \in req[i].ref} ELSE {}
-             badtags == oldtags[i] \cup {Hex(i), Hex(i) \o "_1x", "_", "zz_1"}
+             badtags == {t[1] : t \in oldtags[i]} \cup {Hex(i), Hex(i) \o "_1x", "_", "zz_1"}
          IN UNION { ReplyEvs(s, t, k, i, 1) : s \in notAwaited, t \in cur, k \in StrayKinds }
             \cup UNION { ReplyEvs(s, t, k, i, 1) : s \in SvcNameSet, t \in badtags, k \in StrayKinds }
 
@@ -120,8 +126,10 @@ Events ==
       \cup AwaitedReplies(i) \cup StrayReplies(i) \cup JunkEvents(i) \cup DeadEvents(i)
       : i \in Ids }
 
+ScriptOK(e) == Script = <<>> \/ (Len(hist) < Len(Script) /\ e.e \in Script[Len(hist) + 1])
+
 MCNext ==
-    \E e \in Events :
+    \E e \in {x \in Events : ScriptOK(x)} :
        /\ Step(e)
        /\ LET r == A!CStep(cst, e, out', Cardinality(DOMAIN req')) IN
             /\ cst' = r.c
@@ -129,22 +137,22 @@ MCNext ==
        /\ inst' = IF e.e = "C" THEN [inst EXCEPT ![e.id] = @ + 1] ELSE inst
        /\ npw' = IF e.e = "C" THEN [npw EXCEPT ![e.id] = 0]
                  ELSE IF e.e = "P" /\ Live(e.id) THEN [npw EXCEPT ![e.id] = @ + 1] ELSE npw
-       /\ oldtags' = IF e.e = "C" /\ Live(e.id)
-                     THEN [oldtags EXCEPT ![e.id] = @ \cup {Routing(e.id, req[e.id].serial)}]
-                     ELSE IF e.e \in {"D", "T"} /\ Live(e.id)
-                     THEN [oldtags EXCEPT ![e.id] = @ \cup {Routing(e.id, req[e.id].serial)}]
-                     ELSE oldtags
+       \* the tag of an instance becomes stale when the instance ends: replaced by a re-announcement, withdrawn (D),
+       \* reported registered (T), or decided (accepted / killed) in this step
+       /\ oldtags' = [i \in Ids |-> oldtags[i] \cup
+                        (IF Live(i) /\ (i \notin DOMAIN req' \/ req'[i].serial # req[i].serial)
+                         THEN { <<Routing(i, req[i].serial), {slots[s].name : s \in req[i].ref}>> } ELSE {})]
        /\ hist' = Append(hist, [e |-> e, o |-> out', n |-> Cardinality(DOMAIN req')])
 
 MCSpec == MCInit /\ [][MCNext]_mcvars
 
 \* state identity: everything but the ghosts (cviol stays in: a violating step must not be deduplicated away)
 SlotsNoRefs == [s \in 1..Len(slots) |-> [slots[s] EXCEPT !.refs = 0]]
-MCView == <<serial, req, SlotsNoRefs, cst, cviol, inst, npw, oldtags>>
+MCView == <<serial, req, SlotsNoRefs, cst, cviol, inst, npw, oldtags, IF Script = <<>> THEN 0 ELSE Len(hist)>>
 
 \* one complete behaviour per explored transition
 Emit == \/ EmitMod = 0
-        \/ (EmitMod > 1 /\ RandomElement(1..EmitMod) # 1)
+        \/ (EmitMod > 1 /\ TLCGet("generated") % EmitMod # 0)
         \/ PrintT("@@E" \o ToJson(hist'))
 
 \* simulation mode: print the behaviour once it has reached the requested length
@@ -178,6 +186,17 @@ S_t1c == << [name |-> "a1.svc", type |-> "login"], [name |-> "b2.svc", type |-> 
 S_t1d == << [name |-> "a1.svc", type |-> "combined"] >>
 S_none == << >>
 NoBug == {}
+NoRich == {}
+RichData == {"data", "shapes"}
+RichReply == {"reply"}
+RichModes == {"modes", "shapes"}
+NoScript == << >>
+\* straight-line scripts: one client, every data item in one of a few orders, then replies
+ScriptData1 == << {"C"}, {"N", "d"}, {"u", "u0"}, {"n"}, {"U"}, {"P"} >>
+ScriptData2 == << {"C"}, {"P"}, {"U"}, {"u", "u0"}, {"n"}, {"N", "d"} >>
+ScriptData3 == << {"C"}, {"u0", "u"}, {"P"}, {"n"}, {"H"} >>
+ScriptReply1 == << {"C"}, {"P"}, {"H"}, {"X"}, {"X", "P"}, {"X"}, {"X"} >>
+ScriptReply2 == << {"C"}, {"H"}, {"P"}, {"X", "TO"}, {"X"}, {"X", "P"}, {"X"} >>
 BugD2 == {"D2"}
 BugD3 == {"D3"}
 BugD4 == {"D4"}
